@@ -1,6 +1,6 @@
 (* Model/BdModel.v -- C19: the SB2.1 command-file (BD) language as SPSDK implements it.
 
-   Faithful model (defects included) of
+   Faithful model of
      spsdk/sbfile/sb2/sly_bd_parser.py   semantic actions (expressions, definitions, statements -> dictionaries)
      spsdk/sbfile/sb2/sb_21_helper.py    SB21Helper handlers (dictionaries -> command objects)
      spsdk/sbfile/sb2/commands.py        constructors of the command objects (operand checks, flag packing)
@@ -176,7 +176,9 @@ Definition spec_binop (o : binop) (a b : Z) : option Z :=
   | BAnd => Some (Z.land a b) | BOr => Some (Z.lor a b) | BXor => Some (Z.lxor a b)
   end.
 
-(* integer-size suffixes: byte, half-word (two bytes), word (four bytes) *)
+(* integer-size suffixes: .b byte, .h half-word (two bytes), .w word (four bytes).  docs/usage/elf2sb.md only gives the
+   production `expr '.' INT_SIZE`; the widths are those of the SB21Helper._fill_memory docstring ("load two bytes at an
+   address: load 0x1122.h > 0xf00") and of the elftosb convention the BD language comes from *)
 Definition spec_size_bits (s : isize) : Z := match s with SzB => 8 | SzH => 16 | SzW => 32 end.
 
 Definition obind {A B} (o : option A) (f : A -> option B) : option B := match o with Some a => f a | None => None end.
@@ -209,32 +211,6 @@ Fixpoint beval_spec (e : env) (b : bexpr) : option Z :=
                    Some (b2z (negb (va =? 0) || negb (vc =? 0)))))
   | BNot a => obind (beval_spec e a) (fun v => Some (b2z (v =? 0)))
   | BDefined x => Some (b2z (is_defined e x))
-  end.
-
-(* syntactic classes used by the theorems *)
-Fixpoint no_size (x : expr) : bool :=
-  match x with
-  | ELit _ | EVar _ => true
-  | EBin _ a b => no_size a && no_size b
-  | ENeg a | EPos a => no_size a
-  | ESize _ _ => false
-  end.
-
-(* an operand of && / || whose value is a truth value by construction *)
-Definition bool_shaped (b : bexpr) : bool :=
-  match b with
-  | BInt (ELit z) => (z =? 0) || (z =? 1)
-  | BInt _ => false
-  | _ => true
-  end.
-
-Fixpoint bclean (b : bexpr) : bool :=       (* outside the known finding classes *)
-  match b with
-  | BInt x => no_size x
-  | BCmp _ a c => bclean a && bclean c
-  | BAndL a c | BOrL a c => bclean a && bclean c && bool_shaped a && bool_shaped c
-  | BNot a => bclean a
-  | BDefined _ => false
   end.
 
 (* ------------------------------------------------------------------------------------------------ *)
@@ -367,6 +343,29 @@ Fixpoint canonical (e : expr) : bool :=
   end.
 
 (* ------------------------------------------------------------------------------------------------ *)
+(** * Quoted literals                                                                                *)
+(* ------------------------------------------------------------------------------------------------ *)
+(* The lexer rules for string literals and character literals (regex texts pinned in Gen.token_regex, see
+   Proofs: literal_regexes_non_greedy) stop at the FIRST closing quote and never cross a line end.
+   lex_quoted q s reads one literal delimited by the code point q at the head of s: Some (content, rest) *)
+Fixpoint scan_quoted (q : N) (s acc : list N) : option (list N * list N) :=
+  match s with
+  | [] => None
+  | c :: t => if N.eqb c q then Some (rev acc, t)
+              else if N.eqb c 10 then None
+              else scan_quoted q t (c :: acc)
+  end.
+Definition lex_quoted (q : N) (s : list N) : option (list N * list N) :=
+  match s with
+  | c :: t => if N.eqb c q then scan_quoted q t [] else None
+  | [] => None
+  end.
+Definition plain (q : N) (body : list N) : bool := forallb (fun c => negb (N.eqb c q) && negb (N.eqb c 10)) body.
+Definition regex_of (name : string) : option string :=
+  (fix go (l : list (string * string)) := match l with [] => None | (k, v) :: r => if String.eqb k name then Some v else go r end)
+    token_regex.
+
+(* ------------------------------------------------------------------------------------------------ *)
 (** * Dictionaries produced by the parser actions                                                    *)
 (* ------------------------------------------------------------------------------------------------ *)
 Definition dict := list (string * dval).
@@ -430,7 +429,8 @@ Definition ev (c : pctx) (e : expr) : res Z := eval_impl (vars c) e.
 Definition d_memopt (key : string) (c : pctx) (o : memopt) : res dict :=
   match o with
   | MNone => Ok []
-  | MName s => Ok [(key, DName s)]
+  | MName s => if String.eqb s "" then Err E_UNMODELLED      (* an IDENT token is never empty: not syntax *)
+               else Ok [(key, DName s)]
   | MAt e => bind (ev c e) (fun v => Ok [(key, DInt v)])
   end.
 
@@ -449,7 +449,7 @@ Definition d_ldata (c : pctx) (d : ldata) : res dict :=
                  | Some p => Ok [("file", DStr p)]
                  | None => Err E_UNMODELLED       (* not a SOURCE_NAME token: a different production applies *)
                  end
-  | LBlob b => Ok [("values", DBlob b)]
+  | LBlob b => Ok (("values", DBlob b) :: (if blob_bytes_in_order then [("binary_blob", DInt 1)] else []))
   end.
 
 Definition d_callarg (c : pctx) (a : callarg) : res dict :=
@@ -617,9 +617,11 @@ Definition h_load (fs : files) (d : dict) : res cmd :=
     if mem_id =? 4 then h_prog d
     else match dget "values" d with
          | Some (DBlob b) =>
-             (* values = [int(s, 16) for s in "<hex>".split(",")]: ONE number; struct.pack("<1L", number) *)
-             let v := Z.of_N (be_dec b) in
-             if 4294967295 <? v then Err 1%N else cmd_load addr (PBytes (le_enc 4 (Z.to_N v))) mem_id
+             if truthy (dget "binary_blob" d) then cmd_load addr (PBytes b) mem_id      (* bytes.fromhex(values) *)
+             else
+               (* values = [int(s, 16) for s in "<hex>".split(",")]: ONE number; struct.pack("<1L", number) *)
+               let v := Z.of_N (be_dec b) in
+               if 4294967295 <? v then Err 1%N else cmd_load addr (PBytes (le_enc 4 (Z.to_N v))) mem_id
          | _ => Err E_UNMODELLED
          end
   else if truthy (dget "pattern" d) then
@@ -772,9 +774,10 @@ Definition h_encrypt (fs : files) (kbs : keyblobs) (d : dict) : res cmd :=
           match dget "file" d with Some (DStr p) => load_binary fs p | _ => Err E_UNMODELLED end
         else if truthy (dget "values" d) then
           match dget "values" d with
-          | Some (DBlob b) => let v := Z.of_N (be_dec b) in
-                              if 4294967295 <? v then Err 2%N     (* struct.error *)
-                              else Ok (le_enc 4 (Z.to_N v))
+          | Some (DBlob b) => if truthy (dget "binary_blob" d) then Ok b
+                              else let v := Z.of_N (be_dec b) in
+                                   if 4294967295 <? v then Err 2%N     (* struct.error *)
+                                   else Ok (le_enc 4 (Z.to_N v))
           | _ => Err E_UNMODELLED
           end
         else Err 1%N) (fun data =>
@@ -876,7 +879,16 @@ Definition stmt_spec (c : pctx) (fs : files) (kbs : keyblobs) (s : stmt) : optio
       obind (spec_mem c o) (fun m => obind (spec_target c t) (fun al =>
       match d with
       | LBlob b =>
-          if m =? 4 then None    (* fuse / ifr programming from a blob: specified by h_prog itself, see stmt_prog_blob *)
+          if m =? 4 then
+            (* load fuse / ifr {{..}} > index: the blob, read as one big-endian number below 2^64, is programmed as one or
+               two byte-swapped 32-bit words (for a four / eight byte blob: its little-endian words, as elftosb does) *)
+            obind (spec_data c fs d) (fun bytes =>
+            let v := Z.of_N (be_dec bytes) in
+            obind (if v <? 4294967296 then Some (swap32 v, 0)
+                   else if v <? 18446744073709551616 then Some (swap32 (Z.shiftr v 32), swap32 (Z.land v 4294967295))
+                   else None) (fun w =>
+            obind (guard (u32 (fst al) && u32 (fst w) && u32 (snd w))) (fun _ =>
+            Some (mk 10 (Z.lor (b2z (negb (snd w =? 0))) 1024) (fst al) (fst w) (snd w) PNone 4))))
           else obind (spec_data c fs d) (fun bytes => obind (guard (u32 (fst al))) (fun _ =>
                Some (mk 2 (mem_flags m) (fst al) 0 0 (PBytes bytes) m)))
       | _ => obind (spec_data c fs d) (fun bytes => obind (guard (u32 (fst al))) (fun _ =>
@@ -920,7 +932,7 @@ Definition stmt_spec (c : pctx) (fs : files) (kbs : keyblobs) (s : stmt) : optio
       obind (match o with MAt e => obind (sev c e) (fun _ => Some tt) | _ => Some tt end) (fun _ =>   (* the option is read, not used *)
       obind (spec_target c t) (fun al =>
       match d with
-      | LFile _ | LSource _ =>
+      | LFile _ | LSource _ | LBlob _ =>
           obind (spec_data c fs d) (fun bytes =>
           match to_opt (resolve_keyblob kbs vid) with
           | Some k =>
@@ -934,50 +946,6 @@ Definition stmt_spec (c : pctx) (fs : files) (kbs : keyblobs) (s : stmt) : optio
           end)
       | _ => None
       end)))
-  end.
-
-(* statements outside the known finding classes (F: blob load, reset, call) and inside the part of the
-   language whose meaning stmt_spec fixes *)
-Definition no_size_memopt (o : memopt) : bool :=
-  match o with MAt e => no_size e | MName s => negb (String.eqb s "") | MNone => true end.
-Definition no_size_target (t : target) : bool := match t with TAddr e => no_size e | TRange a b => no_size a && no_size b end.
-Definition no_size_arg (a : callarg) : bool := match a with AArg e => no_size e | _ => true end.
-Definition no_size_ldata (d : ldata) : bool := match d with LPattern e => no_size e | _ => true end.
-
-Definition sclean (s : stmt) : bool :=
-  match s with
-  | SLoad o (LBlob _) t => false
-  | SLoad o d t => no_size_memopt o && no_size_ldata d && no_size_target t
-  | SErase o t => no_size_memopt o && no_size_target t
-  | SEraseAll o => no_size_memopt o
-  | SEraseUnsecureAll => true
-  | SEnable o e => no_size_memopt o && no_size e
-  | SCall true t a => no_size t && no_size_arg a
-  | SCall false _ _ => false
-  | SJumpSp sp t a => no_size sp && no_size t && no_size_arg a
-  | SReset => false
-  | SVersionCheck _ e => no_size e
-  | SKeystore _ (MAt m) t => no_size m && no_size_target t
-  | SKeystore _ _ _ => false
-  | SKeywrap id _ a => no_size id && no_size a
-  | SEncrypt id o (LFile _) t | SEncrypt id o (LSource _) t => no_size id && no_size_memopt o && no_size_target t
-  | SEncrypt _ _ _ _ => false
-  end.
-
-(* encrypt statements outside finding C19-F8: when the key blob enables encryption, the data is loaded at the start of
-   the key blob (then the counter SPSDK uses, the key blob start, is the system address) *)
-Definition enc_at_start (c : pctx) (kbs : keyblobs) (s : stmt) : bool :=
-  match s with
-  | SEncrypt id _ _ t =>
-      match sev c id, spec_target c t with
-      | Some vid, Some (a, _) =>
-          match resolve_keyblob kbs vid with
-          | Ok k => if negb (Z.land (kb_end k) 2 =? 0) && negb (Z.land (kb_end k) 1 =? 0) then a =? kb_start k else true
-          | Err _ => true
-          end
-      | _, _ => true
-      end
-  | _ => true
   end.
 
 (* ------------------------------------------------------------------------------------------------ *)
@@ -1035,6 +1003,14 @@ Definition reduce_unsupported (u : unsupported) : res unit :=
   | Some true => Err 1%N
   | Some false => Ok tt
   | None => Err E_UNMODELLED
+  end.
+
+(* how SPSDK treats the construct: section options are parsed (the parser is shared with HAB command files, where they
+   mean something) and refused by BootImageV21.load_from_config; everything else is refused by its production *)
+Definition unsupported_outcome (u : unsupported) : res unit :=
+  match u with
+  | U_section_options => if section_options_refused then Err 1%N else Ok tt
+  | _ => reduce_unsupported u
   end.
 
 (* ------------------------------------------------------------------------------------------------ *)
@@ -1145,7 +1121,8 @@ Fixpoint run_blocks (ext : list (list N)) (st : pstate) (bs : list block) : res 
   | b :: r => bind (run_block ext st b) (fun st' => run_blocks ext st' r)
   end.
 
-Definition section := (expr * list stmt)%type.
+Record section := { sec_id : expr; sec_opts : list (string * cexpr); sec_stmts : list stmt }.
+Record csection := { cs_id : Z; cs_opts : list (string * dval); cs_cmds : list (string * dict) }.
 
 Fixpoint mapM {A B} (f : A -> res B) (l : list A) : res (list B) :=
   match l with
@@ -1153,12 +1130,16 @@ Fixpoint mapM {A B} (f : A -> res B) (l : list A) : res (list B) :=
   | a :: r => bind (f a) (fun b => bind (mapM f r) (fun bs => Ok (b :: bs)))
   end.
 
-Definition parse_section (c : pctx) (s : section) : res (Z * list (string * dict)) :=
-  bind (eval_impl (vars c) (fst s)) (fun id => bind (mapM (stmt_dict c) (snd s)) (fun ds => Ok (id, ds))).
+(* section '(' int_const_expr section_options ')' section_contents: id, then the options (a list of one-entry
+   dictionaries in the configuration), then the statements *)
+Definition parse_section (c : pctx) (s : section) : res csection :=
+  bind (eval_impl (vars c) (sec_id s)) (fun id =>
+  bind (mapM (fun kc => bind (eval_cexpr (vars c) (snd kc)) (fun v => Ok (fst kc, v))) (sec_opts s)) (fun os =>
+  bind (mapM (stmt_dict c) (sec_stmts s)) (fun ds => Ok {| cs_id := id; cs_opts := os; cs_cmds := ds |}))).
 
 Record config := {
   cf_opts : option (list (N * dval)); cf_srcs : option (list (N * list N)); cf_kbs : option (list (Z * dict));
-  cf_sections : list (Z * list (string * dict)) }.
+  cf_sections : list csection }.
 
 Record program := { p_extern : list (list N); p_files : files; p_blocks : list block; p_sections : list section }.
 
@@ -1168,13 +1149,17 @@ Definition parse_program (p : program) : res config :=
   bind (mapM (parse_section {| vars := st_vars st; srcs := st_srcs st |}) (p_sections p)) (fun secs =>
     Ok {| cf_opts := st_opts st; cf_srcs := st_srcdict st; cf_kbs := st_kbs st; cf_sections := secs |})).
 
-(* BootImageV21.load_from_config: commands of every section, in order; KeyError when there is no options block *)
+(* BootImageV21.load_from_config: commands of every section, in order; KeyError when there is no options block; a
+   section with options is refused when its turn comes *)
 Definition load_config (fs : files) (cf : config) : res (list (list cmd)) :=
   match cf_opts cf with
   | None => Err 2%N
   | Some _ =>
       let kbs := match cf_kbs cf with Some l => l | None => [] end in
-      mapM (fun sec => mapM (helper fs kbs) (snd sec)) (cf_sections cf)
+      mapM (fun sec => match cs_opts sec with
+                       | _ :: _ => if section_options_refused then Err 1%N else mapM (helper fs kbs) (cs_cmds sec)
+                       | [] => mapM (helper fs kbs) (cs_cmds sec)
+                       end) (cf_sections cf)
   end.
 
 (* ------------------------------------------------------------------------------------------------ *)
@@ -1205,7 +1190,8 @@ Definition v_config (cf : config) : value :=
   VList [vopt (fun o => VList (map (fun kv => VList [VInt (Z.of_N (fst kv)); v_dval (snd kv)]) o)) (cf_opts cf);
          vopt (fun o => VList (map (fun kv => VList [VInt (Z.of_N (fst kv)); VStr (snd kv)]) o)) (cf_srcs cf);
          vopt (fun o => VList (map (fun kv => VList [VInt (fst kv); v_dict (snd kv)]) o)) (cf_kbs cf);
-         VList (map (fun s => VList [VInt (fst s); VList (map (fun kd => VList [vstring (fst kd); v_dict (snd kd)]) (snd s))])
+         VList (map (fun s => VList [VInt (cs_id s); VList (map (fun kd => VList [vstring (fst kd); v_dict (snd kd)]) (cs_cmds s));
+                                     vnat (List.length (cs_opts s))])
                     (cf_sections cf))].
 
 (* observable of one program: [configuration or error, command lists or error] *)
